@@ -195,4 +195,4 @@ package interp
 //@   invariant constraints-evaluated-in-the-given-context: sameTags(ctx)
 //@   loop 2
 //@   invariant constraints-evaluated-in-the-given-context: sameTags(ctx)
-//@   canary sameTags(ctx)
+//@   canary !ok
